@@ -9,8 +9,8 @@ PY = '/venv/bin/python'
 MC = 'model_checking'
 CHECKS = {
     'C20': (MC, 'stateless exhaustive schedule enumeration (CHESS-style, preemption-bounded) of the real AsyncRunner on real threads under a controlled scheduler (shimmed threading/time + sys.settrace statement-level preemption)',
-            'Eight drivers (start/queue/await/stop, delayed events and self-termination, pause/unpause, stop while paused, execute_all, two clients, stop during an execute_all cycle, pause racing stop); for each, every schedule of the runner thread against the client thread(s) with at most 1-3 (quick) / 2-4 (thorough) preemptions is executed on the real code and judged: no deadlock/livelock, executed steps == steps handed to after_execute, events consumed exactly once and FIFO, hooks once, pause/stop semantics.',
-            'GIL modelled at statement granularity in six functions and at Event/Thread/sleep operations; interval=0, virtual time; preemption-bounded, not all schedules. Two known findings (F11 queue insert race, F13 pause vs stop deadlock).',
+            'Nine drivers (start/queue/await/stop, delayed events and self-termination, pause/unpause, stop while paused, execute_all, two clients, stop during an execute_all cycle, pause racing stop, events queued while paused then stop); for each, every schedule of the runner thread against the client thread(s) with at most 1-3 (quick) / 2-4 (thorough) preemptions is executed on the real code and judged: no deadlock/livelock, executed steps == steps handed to after_execute, events consumed exactly once and FIFO, hooks once, pause/stop semantics.',
+            'GIL modelled at statement granularity in six functions and at Event/Thread/sleep operations; interval=0, virtual time; preemption-bounded, not all schedules.  Both defects it found in the unchanged tree (F11 queue insert race, F13 pause vs stop deadlock) are repaired; the queue lock introduced by the repair is shimmed too.',
             '§4 C20'),
     'C19': (MC, 'exhaustive enumeration of bounded scenarios (all action blocks x all predefined then-steps x argument domains) run through execute_bdd, against an oracle driving a plain Interpreter',
             'Every scenario made of a when-block of <=2 predefined steps (optionally after a given step, followed by a given step, or as second block after a then) and one then-step of every predefined pattern and argument (true and false assertions in similar numbers) is executed by execute_bdd on two charts; each step status from behave\'s JSON report must equal the truth of the asserted fact computed from the macro steps / state of a plain Interpreter fed the same actions; sismic.testing predicates are compared with the macro steps; the exit code must reflect the verdicts.',
@@ -22,7 +22,7 @@ CHECKS = {
             '§4 C15'),
     'C11': (MC, 'exhaustive bounded input enumeration (all skeleton charts x all field kinds; every (field position, string) pair over a YAML-hostile alphabet) plus lock-step BFS of original vs re-imported chart',
             'Every skeleton chart (<=4-6 states) with every field kind populated, API- and YAML-built, is round-tripped: field-by-field equality, == between originals and re-imports, and lock-step execution over the complete BFS of the original. Every string of a 70-string alphabet (YAML type look-alikes, indicators, quotes, multi-line, unicode line separators, BOM, emoji, control characters) is substituted at every field position, and every pair of strings for two state names.',
-            'Strings outside the alphabet are not covered; code/event strings are compared modulo surrounding whitespace; U+0085 is a known finding (F12).',
+            'Strings outside the alphabet are not covered; code/event strings are compared modulo surrounding whitespace; U+0085 (first a known finding, F12) is repaired and stays in the alphabet.',
             '§4 C11'),
     'C12': ('fault_enumeration', 'exhaustive fault enumeration: every listed fault operator at every applicable position of every valid base document, singly, in all non-overlapping pairs and (small charts) triples',
             'Valid base documents are all skeleton charts (<=5-6 states) rendered to YAML; the imported statechart is checked against the structural rules through public queries; each faulty document (duplicate names, misplaced transitions/history states, dangling initial/memory/target, unknown keys/types/priorities, both states and parallel states, missing name/root/statechart) must raise exactly StatechartError.',
